@@ -12,7 +12,10 @@ for d in sorted(glob.glob('/verif/seeded/*/meta.json')):
     needs=(m.get('needs_to_manifest') or '').replace('\n',' ').replace('|','/')
     needs=needs[:120]+('…' if len(needs)>120 else '')
     det=(m.get('detection') or ('caught at first try by `./check %s quick`'%m['property'] if first else 'NOT caught')).replace('|','/')
-    rows.append('| %s | %s | %s | %s |'%(sid,summ,needs,det))
-print('| seeded change | what it does | needs | detection |\n|---|---|---|---|')
+    fin=(m.get('recheck_on_final_tree') or {}).get('result','')
+    fin=('caught' if fin.startswith('caught') else fin.split(' (')[0])
+    if m.get('recheck_note'): fin+=' — '+m['recheck_note'].replace('|','/')[:160]
+    rows.append('| %s | %s | %s | %s | %s |'%(sid,summ,needs,det,fin))
+print('| seeded change | what it does | needs | detection when it arrived | on the final tree |\n|---|---|---|---|---|')
 print('\n'.join(rows))
 print('\n%d seeded changes kept; caught at first try: %d'%(len(rows),sum(1 for d in glob.glob('/verif/seeded/*/meta.json') if json.load(open(d)).get('confirmed_by_coordinator',{}).get('caught_by_quick_check_at_first_try'))))
